@@ -1,5 +1,5 @@
 import MM.Engine.Basic
-import MM.Model.C16
+import MM.Model.C16x
 
 /-
   Engine c16: the real `relayTable` (ops `t.*`) and the real agent's stream-frame dispatch with
@@ -34,6 +34,7 @@ def showTable (t : Table) : String := s!"up={showMap t.byUp} down={showMap t.byD
 structure St where
   t : Table := {}
   a : Agent := {}
+  ex : C17.Handler := {}   -- the agent's exit handler (serial of the next exit tunnel = ex.next)
 
 def showAgent (a : Agent) : String :=
   s!"tcp {showTable a.tcp} | udp {showTable a.udp} | icmp {showTable a.icmp}"
@@ -48,8 +49,21 @@ def showSent (a : Agent) (k : Kind) (l : List Sent) : String :=
   "[" ++ " ".intercalate ((l.filter (fun s => a.connected s.peer)).map
     (fun s => s!"{s.peer}:{kindName k}.{s.what}:{s.id}")) ++ "]"
 
+def insertKV' (e : Nat × Entry) : List (Nat × Entry) → List (Nat × Entry)
+  | [] => [e]
+  | h :: t => if e.1 ≤ h.1 then e :: h :: t else h :: insertKV' e t
+
+def showExit (h : C17.Handler) : String :=
+  "exit=[" ++ " ".intercalate ((h.conns.foldr insertKV' []).map (fun kv => s!"{kv.1}:{kv.2.serial}")) ++ "]"
+
+def nodeOut (s : St) (a : Agent) (ex : C17.Handler) (k : Kind) (l : List Sent) (x : List String) : St × String :=
+  ({ s with a := a, ex := ex }, s!"sent={showSent a k l} x=[{" ".intercalate x}] | {showAgent a} | {showExit ex}")
+
 def agentOut (s : St) (a : Agent) (k : Kind) (l : List Sent) : St × String :=
-  ({ s with a := a }, s!"sent={showSent a k l} | {showAgent a}")
+  nodeOut s a s.ex k l []
+
+/-- a serial no exit tunnel has: the payload decrypts under no session key -/
+def noKey : Nat := 1000000000
 
 def optOut (s : St) (k : Kind) : Option (Agent × List Sent) → St × String
   | some (a, l) => agentOut s a k l
@@ -61,7 +75,15 @@ def tOut (s : St) (t : Table) (res : String) : St × String :=
 /-- `cleanAll` is a parameter of the engine: `true` = repaired `cleanupRelaysForPeer`. -/
 def step (cleanAll : Bool) (s : St) (line : String) : St × String :=
   match tokens line with
-  | "reset" :: _ => ({ t := {}, a := { cleanAll := cleanAll } }, "ok")
+  | "reset" :: _ => ({ t := {}, a := { cleanAll := cleanAll }, ex := {} }, "ok")
+  | ["xopen", p, i] =>
+    if !s.a.connected p.toNat! then agentOut s s.a .tcp [] else
+    let (n, l, x) := (Node.mk s.a s.ex).xopen p.toNat! i.toNat!
+    nodeOut s n.a n.ex .tcp l x
+  | ["xdata", p, i, k] =>
+    if k.toNat! ≥ s.ex.next then (s, "bad-op") else
+    let (n, l, x) := (Node.mk s.a s.ex).data p.toNat! i.toNat! k.toNat!
+    nodeOut s n.a n.ex .tcp l x
   | ["end"] => agentOut s s.a .tcp []
   | ["t.ins", a, i, b, j] => tOut s (s.t.insert ⟨a.toNat!, i.toNat!, b.toNat!, j.toNat!⟩) "ok"
   | ["t.del", a, i, b, j] => tOut s (s.t.delete ⟨a.toNat!, i.toNat!, b.toNat!, j.toNat!⟩) "ok"
@@ -99,13 +121,22 @@ def step (cleanAll : Bool) (s : St) (line : String) : St × String :=
     | none => (s, "bad-op")
   | ["data", k, p, i] =>
     match parseKind k with
+    | some .tcp =>
+      let (n, l, x) := (Node.mk s.a s.ex).data p.toNat! i.toNat! noKey
+      nodeOut s n.a n.ex .tcp l x
     | some k => optOut s k (s.a.relayData k p.toNat! i.toNat!)
     | none => (s, "bad-op")
   | ["close", k, p, i] =>
     match parseKind k with
+    | some .tcp =>
+      let (n, l, x) := (Node.mk s.a s.ex).close "close" p.toNat! i.toNat!
+      nodeOut s n.a n.ex .tcp l x
     | some k => optOut s k (s.a.relayClose k "close" p.toNat! i.toNat!)
     | none => (s, "bad-op")
-  | ["rst", p, i] => optOut s .tcp (s.a.relayClose .tcp "rst" p.toNat! i.toNat!)
+  | ["rst", p, i] =>
+    -- a reset the relay table does not claim closes the exit record like a close does
+    let (n, l, x) := (Node.mk s.a s.ex).close "rst" p.toNat! i.toNat!
+    nodeOut s n.a n.ex .tcp l x
   | _ => (s, "bad-op")
 
 /-! ### executable statement of C16 (and the relay part of C17) on the implementation's answers.
@@ -122,8 +153,17 @@ structure Tun where
   downId : Nat
   deriving DecidableEq
 
+/-- A tunnel that terminates at this agent's exit handler. -/
+structure XTun where
+  peer : Nat
+  id : Nat
+  serial : Nat
+  deriving DecidableEq
+
 structure SpecSt where
   live : List Tun := []
+  xlive : List XTun := []
+  xnext : Nat := 0
   peers : List Nat := []
   collided : Bool := false   -- two live tunnels of one table shared a bare stream id at some point
 
@@ -135,6 +175,11 @@ def parseSent (out : String) : List (Nat × String × Nat) :=
         | [p, w, i] => some (p.toNat!, w, i.toNat!)
         | _ => none)
     | [] => []
+  | _ => []
+
+def parseX (out : String) : List String :=
+  match out.splitOn "x=[" with
+  | [_, rest] => tokens ((rest.splitOn "]").headD "")
   | _ => []
 
 def countEntries (out : String) : Nat :=
@@ -191,6 +236,32 @@ def removeLeg (s : SpecSt) (k : String) (p i : Nat) (allowUp : Bool) : SpecSt :=
     | some t => { s with live := s.live.filter (· != t) }
     | none => s
 
+/-- close / reset from `(p,i)`: a relayed tunnel is torn down and the close travels on; otherwise the
+    exit tunnel of exactly that peer and id is closed; nothing else may be touched. -/
+def specClose (s : SpecSt) (k what : String) (p i : Nat) (sent : List (Nat × String × Nat)) (x : List String) : SpecSt × String :=
+  match expectFwd s k p i true with
+  | some e =>
+    let s' := removeLeg s k p i true
+    match checkFwd s k what (some e) sent with
+    | some err => (s', "fail " ++ err)
+    | none => (s', if x.isEmpty then "ok" else "fail " ++ tag s "relay-frame-reached-exit")
+  | none =>
+    if k != "tcp" then
+      (match checkFwd s k what none sent with
+       | some err => (s, "fail " ++ err)
+       | none => (s, "ok"))
+    else
+    match s.xlive.find? (fun t => t.peer == p && t.id == i) with
+    | some t =>
+      let s' := { s with xlive := s.xlive.filter (· != t) }
+      let wantSent := if s.peers.contains p then [(p, "tcp.close", i)] else []
+      (s', if sent == wantSent && (x == [s!"dstclosed:{t.serial}"] || s.collided) then "ok" else "fail " ++ tag s "exit-close-misdelivered")
+    | none =>
+      if s.xlive.any (fun t => t.id == i) then
+        (if sent.isEmpty && x.isEmpty then (s, "ok")
+         else ({ s with xlive := s.xlive.filter (fun t => t.id != i) }, "fail c16-collision-exit-wrong-peer"))
+      else (s, if sent.isEmpty && x.isEmpty then "ok" else "fail " ++ tag s "phantom")
+
 def specStep (s : SpecSt) (l : String) : SpecSt × String :=
   match l.splitOn "\t" with
   | [op, out] =>
@@ -229,11 +300,61 @@ def specStep (s : SpecSt) (l : String) : SpecSt × String :=
       match checkFwd s k "ack" (expectFwd s k p i false) sent with
       | some e => (s, "fail " ++ e)
       | none => (s, "ok")
+    | ["xopen", p, i] =>
+      let (p, i) := (p.toNat!, i.toNat!)
+      if !s.peers.contains p then (s, "ok") else
+      if sent == [(p, "tcp.ack", i)] then
+        -- two exit records under one bare id = the handler-level collision of the known finding
+        let dup := s.xlive.any (fun t => t.id == i)
+        ({ s with xlive := ⟨p, i, s.xnext⟩ :: s.xlive.filter (fun t => t.id != i || t.peer != p), xnext := s.xnext + 1,
+                  collided := s.collided || dup }, "ok")
+      else (s, "fail " ++ tag s "exit-open-failed")
+    | ["xdata", p, i, k] =>
+      let (p, i, k) := (p.toNat!, i.toNat!, k.toNat!)
+      let x := parseX out
+      match expectFwd s "tcp" p i true with
+      | some e =>
+        -- a relayed tunnel's frame: forwarded on its own leg, and the exit handler is not touched
+        match checkFwd s "tcp" "data" (some e) sent with
+        | some err => (s, "fail " ++ err)
+        | none => (s, if x.isEmpty then "ok" else "fail " ++ tag s "relay-frame-reached-exit")
+      | none =>
+        match s.xlive.find? (fun t => t.peer == p && t.id == i) with
+        | some t =>
+          if t.serial == k then
+            (s, if x == [s!"dst:{k}"] && sent.isEmpty then "ok" else "fail " ++ tag s "exit-misdelivered")
+          else
+            -- sealed under another tunnel's key: the owner's own stream is torn down (legitimate)
+            ({ s with xlive := s.xlive.filter (· != t) }, "ok")
+        | none =>
+          if s.xlive.any (fun t => t.id == i) then
+            -- a frame of another peer meets an exit record with the same bare id (known finding)
+            (if sent.isEmpty && x.isEmpty then (s, "ok")
+             else ({ s with xlive := s.xlive.filter (fun t => t.id != i) }, "fail c16-collision-exit-wrong-peer"))
+          else (s, if sent.isEmpty && x.isEmpty then "ok" else "fail " ++ tag s "phantom")
     | ["data", k, p, i] =>
       let (p, i) := (p.toNat!, i.toNat!)
-      match checkFwd s k "data" (expectFwd s k p i true) sent with
-      | some e => (s, "fail " ++ e)
-      | none => (s, "ok")
+      let x := parseX out
+      match expectFwd s k p i true with
+      | some e =>
+        match checkFwd s k "data" (some e) sent with
+        | some err => (s, "fail " ++ err)
+        | none => (s, if x.isEmpty then "ok" else "fail " ++ tag s "relay-frame-reached-exit")
+      | none =>
+        if k != "tcp" then
+          (match checkFwd s k "data" none sent with
+           | some err => (s, "fail " ++ err)
+           | none => (s, "ok"))
+        else
+        match s.xlive.find? (fun t => t.peer == p && t.id == i) with
+        | some t =>
+          -- undecryptable payload on the owner's own exit stream: the stream is closed (legitimate)
+          ({ s with xlive := s.xlive.filter (· != t) }, "ok")
+        | none =>
+          if s.xlive.any (fun t => t.id == i) then
+            (if sent.isEmpty && x.isEmpty then (s, "ok")
+             else ({ s with xlive := s.xlive.filter (fun t => t.id != i) }, "fail c16-collision-exit-wrong-peer"))
+          else (s, if sent.isEmpty && x.isEmpty then "ok" else "fail " ++ tag s "phantom")
     | ["err", k, p, i] =>
       let (p, i) := (p.toNat!, i.toNat!)
       let r := checkFwd s k "err" (expectFwd s k p i false) sent
@@ -243,18 +364,10 @@ def specStep (s : SpecSt) (l : String) : SpecSt × String :=
       | none => (s', "ok")
     | ["close", k, p, i] =>
       let (p, i) := (p.toNat!, i.toNat!)
-      let r := checkFwd s k "close" (expectFwd s k p i true) sent
-      let s' := removeLeg s k p i true
-      match r with
-      | some e => (s', "fail " ++ e)
-      | none => (s', "ok")
+      specClose s k "close" p i sent (parseX out)
     | ["rst", p, i] =>
       let (p, i) := (p.toNat!, i.toNat!)
-      let r := checkFwd s "tcp" "rst" (expectFwd s "tcp" p i true) sent
-      let s' := removeLeg s "tcp" p i true
-      match r with
-      | some e => (s', "fail " ++ e)
-      | none => (s', "ok")
+      specClose s "tcp" "rst" p i sent (parseX out)
     | ["end"] =>
       -- C17: once no tunnel is live, every relay index must be empty
       if s.live.isEmpty && countEntries out != 0 then
